@@ -100,6 +100,8 @@ Blame ==
   @@ "blk.await"  :> {"C04", "C02"}
   @@ "blk.join"   :> {"C17", "C02"}
   @@ "eff.peer.res" :> {"C02", "C06"}
+  @@ "eff.ctxweak" :> {"C05", "C15"}
+  @@ "oe.res.try_publish" :> {"C09"} @@ "oe.actor.try_publish" :> {"C09"}
   @@ "eff.nested" :> {"C09"} @@ "eff.nested.res" :> {"C09"}
   @@ "oe.res.publish" :> {"C09"} @@ "oe.res.bpublish" :> {"C09"} @@ "oe.res.bsubscribe" :> {"C09"} @@ "oe.res.bunsubscribe" :> {"C09"}
   @@ "oe.ready.publish" :> {"C09"} @@ "oe.actor.publish" :> {"C09"}
